@@ -57,7 +57,11 @@ type Detail struct {
 }
 
 func cfgClass(c scn.Config) string {
-	return fmt.Sprintf("ps%d/%s/min%d/tr%d/ci%d/ch%d/L%v/re%v/st%v", c.PageSize, c.AutoVacuum, c.MinCheckpointPageN, c.TruncatePageN, c.CheckpointInterval, c.MaxSyncWALFrames, c.Levels, c.RetentionEnabled, c.UseStore)
+	s := fmt.Sprintf("ps%d/%s/min%d/tr%d/ci%d/ch%d/L%v/re%v/st%v", c.PageSize, c.AutoVacuum, c.MinCheckpointPageN, c.TruncatePageN, c.CheckpointInterval, c.MaxSyncWALFrames, c.Levels, c.RetentionEnabled, c.UseStore)
+	if c.MetaInDBDir {
+		s += "/meta-in-db-dir"
+	}
+	return s
 }
 
 // exec runs one history once and returns problems, outcome, trace.
